@@ -3,6 +3,20 @@
 import json, os
 V = "/verif"
 CHECKS = {
+ "C09": dict(cat="exploration",
+   text="bounded-exhaustive core (every in-order stream of <=6 (quick) / <=8 (thorough) events with gaps from {0,1,2,3,7,20} and first ts in {0,1,s,s+1} for all width, slide in 1..=5) plus proptest-generated streams (dense/bursty/sparse gaps, width/slide up to 1000, up to 300 events) fed into CSPARQLWindow<u32> in the engine builder's configuration; an independent reference model computes per firing the set of aligned closes that explain the reported content; content, trigger, monotone-interval and density (each closing interval exactly once) clauses are checked on it",
+   note="trusted: closed-form feasible-close computation (self-checked against literal enumeration on all small cases); an interval is identified only by its content so the verdict is existential over feasible closes; intervals closing at or before the first event are optional; flush() excluded; known finding C09-F1 excluded only through its own signature",
+   tech="bounded exhaustive enumeration + property-based testing (proptest) against a reference window model"),
+
+ "C12": dict(cat="exploration",
+   text="property-based history replay: 60k (quick) / 1.5M (thorough) generated window-consistent stream histories (2-3 windows, optional static graph, 1-2 outputs, 1-5 positive rules incl. joins, chains, recursion, multi-support heads, re-arrivals, expired leftovers, 2-10 evaluation times) with the incremental state threaded between calls; at every evaluation time naive == oracle, incremental state (facts and expiries, both directions) == oracle, nothing with expiry <= now stored, external view == naive == oracle",
+   note="trusted: independent string-level widest-path least-model oracle; alive convention t+alpha>now as documented by the repo tests; prefix-free component IRIs; rules positive, range-restricted, constant predicates, no filters (join-engine corner cases are C05's); sizes bounded",
+   tech="model-based property testing (proptest) against an independent widest-path Datalog oracle"),
+ "C15": dict(cat="exploration",
+   text="model-based property testing: <=300-op encode/decode histories at three API levels (Dictionary, QuotedTripleStore, SparqlDatabase) against an id-level model with all issued ids re-decoded after every operation; independently built database pairs with clashing ids whose union (both directions) is decoded to a lexical dataset and compared with the union of the models on quads, graph identities incl. empty graphs, probability seeds and quoted terms; operand immutability and result bijection",
+   note="trusted: canonical << s p o >> surface syntax and the documented term normalisation are input convention; Dictionary::merge only exercised on id-compatible dictionaries; seed probability is a function of the lexical triple; id-space exhaustion not attempted",
+   tech="model-based property testing (proptest): reference maps for the bijection, lexical-dataset oracle for union"),
+
  "C04": dict(cat="exploration",
    text="model-based testing of the store API: all operation sequences up to length 3 (quick) / 4 (thorough) over a 12-quad universe exhaustively, plus long random sequences; every read path compared with a set model after each step",
    note="trusted: the BTreeSet model and the catalog life-cycle reading of the property; bounded universe and sequence length",
